@@ -1,8 +1,9 @@
 import LentilVerif.Model.Fourier
 import LentilVerif.Gen.NormalizePower
-/-! Executable model of the energy bookkeeping of propagation (C05): intensity `|F|²`, the evaluated window of
-`propagate_dft` for untilted fields, the FFT path `fftshift ∘ fft2(norm='ortho') ∘ ifftshift` of `propagate_fft`
-(with the NumPy index maps as contracts) and `util.normalize_power`. Generic in the value type; Mathlib-free. -/
+/-! Executable model of the energy bookkeeping of propagation (C05): intensity `|F|²`, `np.sum`, `util.normalize_power` (factor
+regenerated; run by the driver op `c05.normalize`) and the reference "input power" of the theorems (`embedAll`: the wavefront's
+total field on its canvas). The propagators themselves are the C02 (`propagateField`, window kernel regenerated) and C09
+(`propagateFft`) models, run by their driver ops. Generic in the value type; Mathlib-free. -/
 namespace Lentil
 
 /-- `|z|²` -/
@@ -23,32 +24,6 @@ def arrSum {A : Type} [Add A] [Zero A] (a : Arr A) : A :=
 (`Gen.npFactor`: `sqrt(power / sum(|array|²))`) -/
 def normalizePower (a : Arr K) (p : R) : Arr K :=
   { a with get := fun i j => a.get i j * CxLike.ofReal (Gen.npFactor RealLike.sqrt RealLike.ofInt p (arrSum (intensity (R := R) a))) }
-
-/-- the field `propagate_dft` evaluates on a window of `M × N` output samples whose first sample has integer frequency
-coordinate `(U0, V0)` (output index minus `⌊shape_out/2⌋`), for a list of untilted fields: each field is transformed by
-`dft2(data, α, shape=(M,N), shift, offset=field.offset, unitary=True)` with the shift that puts coordinate `U0 + u` at
-window index `u`; coincident output fields are merged (summed) by `Wavefront.intensity`'s `reduce`. -/
-def propagateWindow (fs : List (Fld K)) (αr αc : R) (M N U0 V0 : Int) : Arr K :=
-  { s0 := M, s1 := N,
-    get := fun u v => sumList fs fun f =>
-      (dft2 f.arr αr αc M N (-(RealLike.ofInt (U0 + M / 2))) (-(RealLike.ofInt (V0 + N / 2))) f.o0 f.o1 true).get u v }
-
-/-- `np.fft.ifftshift(x)[i] = x[(i + ⌊n/2⌋) mod n]` (documented index map; contract) -/
-def ifftshiftIdxE (n i : Int) : Int := (i + n / 2) % n
-/-- `np.fft.fftshift(x)[i] = x[(i - ⌊n/2⌋) mod n]` (documented index map; contract) -/
-def fftshiftIdxE (n i : Int) : Int := (i + (n - n / 2)) % n
-
-/-- `np.fft.fft2(x, norm='ortho')` (contract): the unitary DFT with both origins at index 0, i.e. `dft2` with
-`α = 1/n`, offset `⌊n/2⌋` and shift `-⌊n/2⌋` cancelling the centring of the coordinates -/
-def fft2ortho (x : Arr K) : Arr K :=
-  dft2 x (RealLike.ofInt 1 / RealLike.ofInt x.s0 : R) (RealLike.ofInt 1 / RealLike.ofInt x.s1 : R) x.s0 x.s1
-    (-(RealLike.ofInt (x.s0 / 2)) : R) (-(RealLike.ofInt (x.s1 / 2)) : R) (x.s0 / 2) (x.s1 / 2) true
-
-/-- `propagate._fft2(x) = fftshift(fft2(ifftshift(x), norm='ortho'))` -/
-def fftPath (x : Arr K) : Arr K :=
-  let xs : Arr K := { x with get := fun i j => x.get (ifftshiftIdxE x.s0 i) (ifftshiftIdxE x.s1 j) }
-  let X := fft2ortho (R := R) xs
-  { X with get := fun k l => X.get (fftshiftIdxE x.s0 k) (fftshiftIdxE x.s1 l) }
 
 /-- the sum of the fields' embeddings on an `S0 × S1` array with the origin at index `⌊S/2⌋`
 (`lentil.pad(wavefront.field, fft_shape)`) -/
